@@ -66,10 +66,24 @@ class MeshLine1(MeshSimplex, Mesh):
                           newt,
                           np.vstack((mid, t[1, marked]))))
 
+        subdomains = None
+        if self._subdomains is not None:
+            # cell k becomes new_t[0, k] (and new_t[1, k] if it was split)
+            new_t = np.zeros((2, t.shape[1]), dtype=np.int32) - 1
+            new_t[0, nonmarked] = np.arange(len(nonmarked), dtype=np.int32)
+            new_t[0, marked] = (len(nonmarked)
+                                + np.arange(len(marked), dtype=np.int32))
+            new_t[1, marked] = new_t[0, marked] + len(marked)
+            subdomains = {
+                name: np.setdiff1d(np.unique(new_t[:, ixs]), [-1])
+                for name, ixs in self._subdomains.items()
+            }
+
         return replace(
             self,
             doflocs=newp,
             t=newt,
+            _subdomains=subdomains,
         )
 
     def param(self):
